@@ -295,7 +295,7 @@ def _finite(c):
 
 # ---- order independence and --config --------------------------------------------------------------------------------
 ORDER_POOL = [("-m", "mae"), ("-x", "time"), ("-agg", "max"), ("-o", "0,24"), ("-l", "<id0>,<id2>"), ("-lx", "<id2>"), ("-d", "<d0>:<d2>"),
-              ("-obsrange", "0.5,2"), ("-leg", "a,b"), ("-acc",), ("-type", "csv"), ("-T", "24"), ("-Tagg", "max"), ("-c", "<clim>"), ("-tod", "0,6"),
+              ("-obsrange", "0.5,2"), ("-leg", "run#1,b"), ("-acc",), ("-type", "csv"), ("-T", "24"), ("-Tagg", "max"), ("-c", "<clim>"), ("-tod", "0,6"),
               ("-latrange", "40,42.5"), ("-b", "below"), ("-r", "2")]
 
 
@@ -485,7 +485,8 @@ def h_vectors(ctx):
             if (end - start) * s < 0:
                 continue            # the step points away from the end: not documented syntax
             text = "%s:%s" % (gen.fmt_num(start), gen.fmt_num(end)) if step is None else "%s:%s:%s" % (gen.fmt_num(start), step, gen.fmt_num(end))
-            for variant in (text, "7," + text, text + ",-3.5", text + "," + text):
+            # pieces are independent: a two-part range after a three-part one (and vice versa) still steps by 1
+            for variant in (text, "7," + text, text + ",-3.5", text + "," + text, text + ",10:12", "10:12," + text, text + ",20:-2:16,30:31"):
                 kind, got, site, out = H.quiet_call(verif.util.parse_numbers, variant)
                 exp = parse_vector(variant)
                 checked += 1
@@ -642,7 +643,7 @@ def run(tier, only=None):
         bound = {"model": "dev(%s) over -m(8) -x(12) and 17 option groups from the base line" % k,
                  "order": "%d option sets of size <= %d x all permutations of groups and file positions" % (len(params.get("combos", [])), 3 if tier == "quick" else 4),
                  "config": "%d option sets x every partition between command line and two --config files" % len(params.get("combos", [])),
-                 "lists": "5 listings x 11 subsetting variants x 3 flag positions", "vectors": "full grid start x end x step x 4 comma mixtures",
+                 "lists": "5 listings x 11 subsetting variants x 3 flag positions", "vectors": "full grid start x end x step x 7 comma mixtures (single range; with plain numbers; with two- and three-part ranges before and after)",
                  "dates": "every start day of 36 months x 9 lengths x 5 steps", "reject": "%d rejection cases x %d companions x 3 positions" % (len(REJECTS), len(VALID_SINGLE) + 1)}[name]
         subs.append(core.Sub.from_e1(name, st, bound=bound, rule="one execution = one model trace (command line or family of equivalent command lines) replayed against the driver",
                                      min_outcomes=1, wall=time.time() - t0))
